@@ -24,6 +24,20 @@ CLAIMED = {
              note="Trusted: as C01; the packet signature given to the model is the one the implementation extracted from the same bytes "
                   "(extraction is C03's tie). No axioms.",
              tech="Coq proof (loop = declarative selection) + extracted-model differential correspondence through fingerprint_tcp", ref="DESIGN.md section 4 C02"),
+ "C13": dict(text="Coq theorems: verdict iff the gate (both timestamps non-zero, wait window, >= 5 ticks mod 2^32, not the grace case); inside the gate "
+                  "in-scale -> rounded tps + uptime fields, out-of-scale -> tps -1 (no verdict on a pure SYN); forward progress by d ticks reads d*1000/ms "
+                  "also across the 2^32 wrap, a backward step reads non-positive; the rounding table, positivity, monotonicity and idempotence for EVERY "
+                  "integer frequency >= 0 (no bound); packet gate. " + TIE,
+             note="Trusted: as C01; floats are replaced by exact rationals (argument in DESIGN.md C13; raw_frequency is compared bit-for-bit with the "
+                  "correctly rounded quotient); thresholds assumed sane (0 < min scale, min wait >= 1, grace > 0); clock replaced via time.time_ns. No axioms.",
+             tech="Coq proof (mod 2^32 arithmetic, rounding over all Z) + extracted-model differential correspondence", ref="DESIGN.md section 4 C13"),
+ "C08": dict(text="Coq theorems: MTU = MSS+40/60 and the earliest record with exactly that MTU (first-occurrence characterisation), exact packet gate, "
+                  "impersonation round trip (the MSS a dissector reads from the new option list gives back m), other options and their order untouched, "
+                  "every former MSS position still an MSS. " + TIE + " The impersonated packet is re-fingerprinted by the real code and all non-option "
+                  "header fields are compared.",
+             note="Trusted: as C01; options of the base packet are abstracted to MSS / opaque-other by the harness; (fragment,type,version,MSS) given to "
+                  "the fingerprint model are those the implementation extracted (C03's tie). No axioms.",
+             tech="Coq proof (first-equal record, option-list invariants) + extracted-model differential correspondence", ref="DESIGN.md section 4 C08"),
 }
 def main():
     checks = []
